@@ -44,6 +44,8 @@ THEOREMS = [
     "blank_continuation_file_spec", "c11_blank_continuation_refuted",
     "sys_obs_types_roundtrip", "epoch_roundtrip_v3", "rinex3_file_roundtrip", "rinex3_file_rows", "decimation_file_spec",
     "undefined_types_absent",
+    "types_of_observ_roundtrip", "time_of_first_obs_roundtrip", "epoch_roundtrip_v2", "sat_list_continuation_v2",
+    "obs_line_classified_v2", "obs_record_roundtrip_v2",
 ]
 
 REQ = "From Verif Require Import Lib.Dyadic Model.C11_Rinex Model.C11_Check."
